@@ -86,6 +86,10 @@ int sh_blocking_polls(void); /* number of such polls seen since sh_reset */
 /* ---- resource faults (C08): the n-th (1-based) resource-creating call made
  * inside an XCM call from now on fails with `err`. 0 = off. */
 void sh_fail_resource_at(int n, int err);
+/* a second fault in the same run: the n-th resource call fails too, with an errno plausible for that call */
+void sh_fail_resource_at2(int n, int skip_eventfd);
+int sh_resource_fault2_hit(void);
+const char *sh_resource_fault2_name(void);
 int sh_resource_calls(void);
 const char *sh_resource_call_name(int idx); /* 0-based, since sh_reset */
 int sh_resource_fault_hit(void);
